@@ -315,6 +315,26 @@ func specTerm(s []specKS) string {
 
 func generated(k specKS) bool { return !hs.IsGREASE(k.group) && k.dlen <= 1 }
 
+// twoHybrids: the spec generates more than one hybrid share (both X25519MLKEM768 and X25519Kyber768Draft00).
+// KeySharePrivateKeys has one Mlkem / MlkemEcdhe slot, so the earlier one is overwritten: failures of such a
+// spec are reported under their own key (a known limitation, not the second-classical-share defect).
+func twoHybrids(spec []specKS) bool {
+	n := 0
+	for _, k := range spec {
+		if generated(k) && isHybrid(k.group) {
+			n++
+		}
+	}
+	return n > 1
+}
+
+func failKey(kind, name string, group uint16, spec []specKS) string {
+	if twoHybrids(spec) && isHybrid(group) {
+		return "two-hybrid-shares/" + name
+	}
+	return fmt.Sprintf("%s/%s/%d", kind, name, group)
+}
+
 // publicOf derives the public key a generateECDHEKey call produces from the bytes it read (Go 1.24:
 // crypto/ecdh x25519.go:37-48, crypto/internal/fips140/ecdh GenerateKey: key[1] ^= 0x42, P-521 mask).
 func publicOf(g uint16, scalar []byte) []byte {
@@ -363,19 +383,19 @@ func examine(c *vh.Ctx, b *built, fixed bool, emitCases bool) {
 			continue // preset Data: the caller's bytes
 		}
 		if want := requiredSize(e.group); want >= 0 && len(e.data) != want {
-			c.Fail(fmt.Sprintf("share-size/%s/%d", name, e.group), "a non-GREASE key share does not have the size its group requires", input, len(e.data), want)
+			failOnce(c, fmt.Sprintf("share-size/%s/%d", name, e.group), "a non-GREASE key share does not have the size its group requires", input, len(e.data), want)
 		}
 	}
 	// session id / random
 	if b.cl.quic {
 		if len(w.SessionID) != 0 {
-			c.Fail("quic-sid/"+name, "a QUIC ClientHello carries a non-empty legacy session id", input, len(w.SessionID), 0)
+			failOnce(c, "quic-sid/"+name, "a QUIC ClientHello carries a non-empty legacy session id", input, len(w.SessionID), 0)
 		}
 	} else if len(w.SessionID) != 32 && len(w.KeyShareGroups) > 0 {
-		c.Fail("sid-len/"+name, "a TLS 1.3 ClientHello over TCP does not carry a 32-byte legacy session id", input, len(w.SessionID), 32)
+		failOnce(c, "sid-len/"+name, "a TLS 1.3 ClientHello over TCP does not carry a 32-byte legacy session id", input, len(w.SessionID), 32)
 	}
 	if len(w.Random) != 32 {
-		c.Fail("random-len/"+name, "client random is not 32 bytes", input, len(w.Random), 32)
+		failOnce(c, "random-len/"+name, "client random is not 32 bytes", input, len(w.Random), 32)
 	}
 	// backing: the retained private key of every generated share has the public half on the wire
 	if b.keys != nil && len(b.spec) == len(b.entries) {
@@ -398,7 +418,7 @@ func examine(c *vh.Ctx, b *built, fixed bool, emitCases bool) {
 				}
 			}
 			if !backed {
-				c.Fail(fmt.Sprintf("share-unbacked/%s/%d", name, e.group), "the client sent a key share whose private key it did not retain", input,
+				failOnce(c, failKey("share-unbacked", name, e.group, b.spec), "the client sent a key share whose private key it did not retain", input,
 					map[string]any{"ecdhe": hs.CurveOfKey(b.keys.Ecdhe), "extra": len(extra), "mlkem": b.keys.Mlkem != nil}, "a retained private key with this public half")
 			}
 		}
@@ -529,6 +549,8 @@ func customClasses() []class {
 		{name: "custom-kyber-p384", kind: "custom", id: tls.HelloCustom, mk: customSpec(ks(tls.X25519Kyber768Draft00, tls.CurveP384), append([]tls.CurveID{tls.X25519Kyber768Draft00}, allGroups...))},
 		{name: "custom-grease-x25519-p256", kind: "custom", id: tls.HelloCustom,
 			mk: customSpec(append([]tls.KeyShare{{Group: tls.GREASE_PLACEHOLDER, Data: []byte{0}}}, ks(tls.X25519, tls.CurveP256)...), append([]tls.CurveID{tls.GREASE_PLACEHOLDER}, allGroups...))},
+		{name: "custom-two-hybrids", kind: "custom", id: tls.HelloCustom,
+			mk: customSpec(ks(tls.X25519MLKEM768, tls.X25519Kyber768Draft00, tls.X25519), append([]tls.CurveID{tls.X25519Kyber768Draft00}, allGroups...))},
 		{name: "custom-preset-data-then-p256", kind: "custom", id: tls.HelloCustom,
 			mk: customSpec([]tls.KeyShare{{Group: tls.X25519, Data: preset}, {Group: tls.CurveP256}}, allGroups)},
 	}
@@ -641,12 +663,12 @@ func run(c *vh.Ctx) {
 			examine(c, b, fixed, false)
 			in := map[string]any{"class": cl.name, "connection": k}
 			if seenR[string(b.wire.Random)] {
-				c.Fail("repeat-random/"+cl.name, "the client random repeated across connections", in, vh.Hex(b.wire.Random), "fresh")
+				failOnce(c, "repeat-random/"+cl.name, "the client random repeated across connections", in, vh.Hex(b.wire.Random), "fresh")
 			}
 			seenR[string(b.wire.Random)] = true
 			if len(b.wire.SessionID) > 0 {
 				if seenS[string(b.wire.SessionID)] {
-					c.Fail("repeat-sid/"+cl.name, "the legacy session id repeated across connections", in, vh.Hex(b.wire.SessionID), "fresh")
+					failOnce(c, "repeat-sid/"+cl.name, "the legacy session id repeated across connections", in, vh.Hex(b.wire.SessionID), "fresh")
 				}
 				seenS[string(b.wire.SessionID)] = true
 			}
@@ -662,7 +684,7 @@ func run(c *vh.Ctx) {
 				}
 				for _, pt := range parts {
 					if seenK[string(pt)] {
-						c.Fail(fmt.Sprintf("repeat-share/%s/%d", cl.name, e.group), "a key share repeated (across connections or within one hello)", in, vh.Hex(pt[:8]), "fresh")
+						failOnce(c, fmt.Sprintf("repeat-share/%s/%d", cl.name, e.group), "a key share repeated (across connections or within one hello)", in, vh.Hex(pt[:8]), "fresh")
 					}
 					seenK[string(pt)] = true
 				}
@@ -686,6 +708,12 @@ func run(c *vh.Ctx) {
 		}
 		for i, e := range b.entries {
 			if !generated(b.spec[i]) || !implementedByServer(e.group) {
+				continue
+			}
+			if !hs.ContainsU16(b.wire.SupportedGroups, e.group) {
+				// a share for a group the hello does not list in supported_groups (randomized specs, F-09): a
+				// compliant server never selects it
+				c.Count("share-group-not-listed")
 				continue
 			}
 			jobs = append(jobs, selRun{cl: cl, idx: i, group: e.group})
@@ -716,10 +744,15 @@ func run(c *vh.Ctx) {
 			c.Count("select-build-error")
 			continue
 		}
+		if len(r.Trace.Sent) == 0 && r.ClientErr != nil {
+			// the server sent nothing: it rejected the offer itself, there is no client decision
+			c.Count("server-declined")
+			continue
+		}
 		completed := r.ClientErr == nil && r.AppData && r.ClientCurve == j.group && !r.ClientDidHRR
 		in := map[string]any{"class": j.cl.name, "server_curve_preferences": []uint16{j.group}, "wire_key_shares": r.Wire.KeyShareGroups, "share_index": j.idx}
 		if !completed {
-			c.Fail(fmt.Sprintf("share-key/%s/%d", j.cl.name, j.group),
+			failOnce(c, failKey("share-key", j.cl.name, j.group, b.spec),
 				"the server selected a key share the client sent, and the client did not complete the handshake on it", in,
 				map[string]any{"client_error": errStr(r.ClientErr), "server_error": errStr(r.ServerErr), "app_data": r.AppData, "curve": r.ClientCurve, "hrr": r.ClientDidHRR},
 				"handshake completes on the selected share and application data round-trips")
@@ -737,6 +770,22 @@ func run(c *vh.Ctx) {
 		for _, k := range ks {
 			fmt.Println(k, c.Dist[k])
 		}
+	}
+}
+
+var (
+	failMu   sync.Mutex
+	failSeen = map[string]bool{}
+)
+
+// failOnce reports the first failure under each key (the freshness loop would repeat it per connection).
+func failOnce(c *vh.Ctx, key, what string, input, got, want any) {
+	failMu.Lock()
+	seen := failSeen[key]
+	failSeen[key] = true
+	failMu.Unlock()
+	if !seen {
+		c.Fail(key, what, input, got, want)
 	}
 }
 
